@@ -158,7 +158,7 @@ Proof.
       apply WK_pump_tail; cbn [set_timer q pumpStuck reqC readyC started closing pend rdy].
       * unfold Jpos. cbn [set_timer q]. rewrite A4. unfold Jpos in Jp. rewrite Ht in Jp. inversion Jp; assumption.
       * rewrite A9. exact Hns.
-      * rewrite A3. change (reqC s1) with (reqC s). lia.
+      * rewrite A3. change (reqC s1) with (reqC s). split; [exact P1|]. apply Z.le_trans with (m := 1); [apply Z.leb_le; reflexivity|exact A2].
       * intros; right; exact A2.
     + cbn. rewrite Hns. apply WK_pump_tail; cbn; [exact Jp|exact Hns|split; assumption|exact W2].
   - (* Deliver *)
